@@ -407,7 +407,7 @@ Section Handlers.
       + split; [|reflexivity]. exists l. split; [reflexivity|]. unfold update_last_cmid in Hu.
         destruct (sv_sessions sv1 !! (session, 0%N)); [|discriminate]. injection Hu as <-. exact Hl.
       + exists l. auto.
-    - destruct HR as (l & -> & Hl). destruct parsed as [g|]; cbn [Rout]; (split; [|reflexivity]).
+    - destruct HR as (l & -> & Hl). destruct (config_in_force _ _ _) as [g|] eqn:Hcf; cbn [Rout]; (split; [|reflexivity]).
       + exists l. split; [|exact Hl]. reflexivity.
       + exists l. auto.
   Qed.
